@@ -33,10 +33,11 @@ BASE = dict(exits=False, yields=True, time_advance=False, alias_arrays=False, ma
 def pairs(draw):
     # one method's loop counter is the other method's ordinary temporary (and vice versa)
     from vlib.progen import REAL_TEMPS
-    a = draw(methods(dict(BASE, loop_vars=["i"], real_temps=REAL_TEMPS + ["j"])))
+    a = draw(methods(dict(BASE, loop_vars=["i", "l"], real_temps=REAL_TEMPS + ["j", "x_0", "z_0"], name_pool="adversarial")))
     force = [(p["name"], p["next"]) for p in a["phases"]]
-    b = draw(methods(dict(BASE, force_phases=force, loop_vars=["j"], real_temps=REAL_TEMPS + ["i"])))
-    pred = draw(st.sampled_from(["none", "nonpersistent", "nonpersistent", "keep_one", "also_p"]))
+    b = draw(methods(dict(BASE, force_phases=force, loop_vars=["j", "i"], real_temps=REAL_TEMPS + ["l", "x_0", "z_0"],
+                          name_pool="adversarial")))
+    pred = draw(st.sampled_from(["none", "nonpersistent", "nonpersistent", "keep_one", "also_p", "only_one", "only_one"]))
     # a phase that exists in one method only (must be taken over unchanged); nothing points to it
     extra = draw(st.sampled_from(["none", "none", "a", "b", "both"]))
     first = a["phases"][0]["name"]
@@ -145,6 +146,13 @@ def predicate(kind, a_names, b_names):
         f = lambda n: not is_persistent(n) or n.startswith("<p>")   # noqa: E731
         return f, f
     clash = sorted(n for n in a_names & b_names if not is_persistent(n) and not n.startswith("<cond>"))
+    if kind == "only_one":
+        # the caller wants a single clashing name kept apart and nothing else touched - preferably one whose
+        # obvious replacement (name_0) the second method already uses
+        pick = [n for n in clash if n + "_0" in b_names] or clash
+        one = pick[0] if pick else None
+        f = lambda n: n == one   # noqa: E731
+        return f, f
     keep = clash[0] if clash else None
     f = lambda n: not is_persistent(n) and n != keep   # noqa: E731
     return f, f
@@ -350,7 +358,7 @@ def check_case(case):
             elif y in pa_names:
                 return "phase %s: the second method's %s (now %s) collides with a name of the first method" % (pname, x, y), info
     # ---- behavioural oracle
-    if case["pred"] in ("keep_one", "also_p"):
+    if case["pred"] in ("keep_one", "also_p", "only_one"):
         info["behaviour"] = "skipped (shared temporary / renamed persistent variables requested)"
         return None, info
     state = union_state(a, b)
